@@ -112,9 +112,10 @@ class Extern:
     The same definition runs symbolically (inside the interpreter) and natively (as the stub
     the REAL code calls during replay / cross-check)."""
 
-    def __init__(self, name, fn, doc=None):
+    def __init__(self, name, fn, doc=None, native_passthrough=False):
         self.name = name
         self.fn = fn
+        self.native_passthrough = native_passthrough    # True: the REAL callee runs in native runs
         self.doc = doc or (fn.__doc__ or '').strip()
         self.calls = 0
 
@@ -125,6 +126,37 @@ class Extern:
 
     def __repr__(self):
         return "<extern %s>" % self.name
+
+
+class Uninterp:
+    """An extern abstracted as an uninterpreted function of its arguments (strings, maps).  Natively the
+    REAL function runs (it is not patched), so counter-models that depend on the abstraction may not
+    reproduce: such obligations are reported with no-failing-input-found."""
+
+    def __init__(self, name, result_sort=None, doc=None):
+        self.name = name
+        self.result_sort = result_sort or z3.StringSort()
+        self.doc = doc or ''
+
+    def apply(self, *args):
+        zargs = []
+        for a in args:
+            if isinstance(a, MapBox):
+                zargs.extend([a.m.dom, a.m.val])
+            elif isinstance(a, dict):
+                m = SymMap.empty(z3.StringSort(), z3.StringSort())
+                for k, v in a.items():
+                    m = m.store(k, v)
+                zargs.extend([m.dom, m.val])
+            else:
+                zargs.append(to_z3(a))
+        f = z3.Function(self.name.replace('.', '_'), *([x.sort() for x in zargs] + [self.result_sort]))
+        return wrap(f(*zargs))
+
+    def __call__(self, *args, **kwargs):
+        if kwargs:
+            raise OutsideSubset("keyword arguments to uninterpreted extern %s" % self.name)
+        return self.apply(*args)
 
 
 class GuardedList(ModelValue):
@@ -179,15 +211,20 @@ class SymMap(ModelValue):
         self.dom, self.val, self.ksort, self.vsort = dom, val, ksort, vsort
 
     def has(self, k):
+        _note_key(k)
+        if not isinstance(k, (Sym, str, int)) or isinstance(k, bool):
+            return False
         e = to_z3(k)
         if e.sort() != self.ksort:
             return False
         return wrap(z3.Select(self.dom, e))
 
     def at(self, k):
+        _note_key(k)
         return wrap(z3.Select(self.val, to_z3(k)))
 
     def store(self, k, v):
+        _note_key(k)
         return SymMap(z3.Store(self.dom, to_z3(k), z3.BoolVal(True)),
                       z3.Store(self.val, to_z3(k), to_z3(v)), self.ksort, self.vsort)
 
@@ -209,6 +246,11 @@ class SymMap(ModelValue):
         return SymMap(self.dom, self.val, self.ksort, self.vsort)
 
 
+def _note_key(k):
+    if isinstance(k, str) and _CURRENT[0] is not None:
+        _CURRENT[0].key_literals.add(k)
+
+
 def _default(sort):
     k = sort.kind()
     if k == z3.Z3_INT_SORT:
@@ -227,6 +269,29 @@ class MapBox:
 
     def __init__(self, m):
         self.m = m
+
+
+class FlexDict(dict):
+    """A dict created by the interpreted code from an empty literal; becomes symbolic (sym = MapBox) the
+    first time a symbolic map is merged into it."""
+    sym = None
+
+    def to_sym(self):
+        if self.sym is None:
+            m = None
+            for k, v in self.items():
+                if m is None:
+                    m = SymMap.empty(to_z3(k).sort(), to_z3(v).sort())
+                m = m.store(k, v)
+            self.sym = MapBox(m)        # m may be None for an empty dict: sorts are fixed by the first merge
+            self.clear()
+        return self.sym
+
+
+def unflex(v):
+    if isinstance(v, FlexDict) and v.sym is not None:
+        return v.sym
+    return v
 
 
 class SymArr(ModelValue):
